@@ -195,7 +195,7 @@ def r14a(ctx, rep, cr, cg):
                 rep.holds('R14a', f, 'level', '%s ≥ %s' % (lv, MIN_LEVEL[short]))
             elif lv:
                 rep.violation('R14a', f, 'level-too-low', f.loc(), 'Vault::%s checks %s but the operation needs at least %s' % (short, lv, MIN_LEVEL[short]))
-    rep.floor('R14a', 'Vault operations with sensitive calls', n, 12)
+    rep.floor('R14a', 'Vault operations with sensitive calls', n, 6)
 
 
 def r14d(ctx, rep, cr, cg):
@@ -230,7 +230,7 @@ def r14d(ctx, rep, cr, cg):
                           'working here until somebody calls get/list' % (f.name[len(V):], bad[0].resolved.split('::')[-1]))
         else:
             rep.holds('R14d', f, 'sweep before check', '%d check(s)' % len(checks))
-    rep.floor('R14d', 'public operations that check access', n, 15)
+    rep.floor('R14d', 'public operations that check access', n, 8)
 
 
 def r14b(ctx, rep, cr):
@@ -330,8 +330,8 @@ def r14c(ctx, rep, cr):
                                   'a %s is built from the secret value without passing the cipher: the plaintext is readable at rest / in records' % s[0])
                 else:
                     rep.holds('R14c', f, s[0], 'value reaches it only through the cipher')
-    rep.floor('R14c', 'store key sites', nk, 10)
-    rep.floor('R14c', 'value sink sites', nv, 4)
+    rep.floor('R14c', 'store key sites', nk, 5)
+    rep.floor('R14c', 'value sink sites', nv, 2)
 
 
 def run(ctx, rep):
